@@ -71,7 +71,7 @@ int main(int argc, char **argv)
 			printf("chunks32");
 			while (pos < len || pieces == 0) {
 				int k = vrng_chance(30) ? (int)vrng_below(6) : (int)vrng_below(len - pos + 1);
-				if (pieces > 40) k = len - pos;
+				if (pieces > 40 || k > len - pos) k = len - pos;
 				fputc(' ', stdout); put_hex(stdout, buf + pos, k);
 				c = libxmp_crc32_A(buf + pos, k, c);
 				pos += k; pieces++;
@@ -84,7 +84,7 @@ int main(int argc, char **argv)
 			uint16 c = 0;
 			while (pos < len || pieces == 0) {
 				int k = vrng_chance(30) ? (int)vrng_below(6) : (int)vrng_below(len - pos + 1);
-				if (pieces > 40) k = len - pos;
+				if (pieces > 40 || k > len - pos) k = len - pos;
 				c = libxmp_crc16_IBM(buf + pos, k, c);
 				pos += k; pieces++;
 			}
